@@ -474,13 +474,20 @@ def SStr.run (s : SStr) : List (Op Char) → List (Out Char) × SStr
 
 /-! ## 5. the reference: `io.BytesIO` / `io.StringIO(newline='')` as a plain file -/
 
-/-- how lines are cut: first line and all lines of the unread rest -/
+/-- how lines are cut: `first` = what `readline()` / `next()` return from the unread rest,
+    `all` = what `readlines()` returns, `iter` = what iterating to the end yields -/
 structure LineSem (α : Type) where
   first : List α → List α
   all   : List α → List (List α)
+  iter  : List α → List (List α)
 
-def bytesSem : LineSem Byte := ⟨takeLine isNL, splitLines isNL⟩
-def textSem : LineSem Char := ⟨firstLine false, splitL false⟩
+/-- io.BytesIO: lines end at LF -/
+def bytesSem : LineSem Byte := ⟨takeLine isNL, splitLines isNL, splitLines isNL⟩
+/-- io.StringIO(newline=''): lines end at LF, CR, CRLF -/
+def textSem : LineSem Char := ⟨firstLine false, splitL false, splitL false⟩
+/-- what SpooledStringIO implements: `readline` / iteration cut at every `str.splitlines` boundary
+    (they go through `codecs.StreamReader.readline`), `readlines` only at LF, CR, CRLF -/
+def codecSem : LineSem Char := ⟨firstLine true, splitL false, splitL true⟩
 
 def Spec.next (sem : LineSem α) (f : File α) : Out α × File α :=
   if (sem.first f.rest).isEmpty then (.stop, f)
@@ -500,13 +507,63 @@ def Spec.step [Inhabited α] (sem : LineSem α) (f : File α) : Op α → Out α
   | .getvalue => (.data f.data, f)
   | .len => (.num f.data.length, f)
   | .next => Spec.next sem f
-  | .list => (.lines (sem.all f.rest), ⟨f.data, f.pos + f.rest.length⟩)
-  | .drain => (.lines (sem.all f.rest), ⟨f.data, f.pos + f.rest.length⟩)
+  | .list => (.lines (sem.iter f.rest), ⟨f.data, f.pos + f.rest.length⟩)
+  | .drain => (.lines (sem.iter f.rest), ⟨f.data, f.pos + f.rest.length⟩)
 
 def Spec.run [Inhabited α] (sem : LineSem α) (f : File α) : List (Op α) → List (Out α) × File α
   | [] => ([], f)
   | op :: ops => (((Spec.step sem f op).1 :: (Spec.run sem (Spec.step sem f op).2 ops).1),
                   (Spec.run sem (Spec.step sem f op).2 ops).2)
+
+/-! ### the domain of the statement (decidable, evaluated along the run of the reference file) -/
+
+/-- `tell`, `getvalue`, `len` -/
+def isQuery : Op α → Bool
+  | .tell => true
+  | .getvalue => true
+  | .len => true
+  | _ => false
+
+/-- SpooledBytesIO: seek targets inside the data; `readline(0)` excluded (boltons treats 0 as "no limit") -/
+def okB (f : File Byte) : Op Byte → Bool
+  | .seek p => p ≤ f.data.length
+  | .seekCur n => f.pos + n ≤ f.data.length
+  | .seekEnd n => n ≤ f.data.length
+  | .readlineN n => n ≠ 0
+  | _ => true
+
+def validB (f : File Byte) : List (Op Byte) → Bool
+  | [] => true
+  | op :: ops => okB f op && validB (Spec.step bytesSem f op).2 ops
+
+/-- SpooledStringIO: appending writes, seek targets inside the data, no `readline(n)` -/
+def okS (f : File Char) : Op Char → Bool
+  | .write _ => f.pos = f.data.length
+  | .seek p => p ≤ f.data.length
+  | .seekCur n => f.pos + n ≤ f.data.length
+  | .seekEnd n => n ≤ f.data.length
+  | .readlineN _ => false
+  | _ => true
+
+def validS (f : File Char) : List (Op Char) → Bool
+  | [] => true
+  | op :: ops => okS f op && validS (Spec.step codecSem f op).2 ops
+
+/-- no `str.splitlines` boundary other than CR / LF occurs -/
+def noExotic (l : List Char) : Bool := l.all (fun c => !isExotic c)
+
+/-- line-cutting operations are applied only to texts without VT, FF, FS, GS, RS, NEL, LS, PS -/
+def plainOp (f : File Char) : Op Char → Bool
+  | .readline => noExotic f.data
+  | .readlineN _ => noExotic f.data
+  | .next => noExotic f.data
+  | .list => noExotic f.data
+  | .drain => noExotic f.data
+  | _ => true
+
+def plainS (f : File Char) : List (Op Char) → Bool
+  | [] => true
+  | op :: ops => plainOp f op && plainS (Spec.step codecSem f op).2 ops
 
 /-! ## 6. MultiFileReader -/
 
@@ -561,6 +618,10 @@ def MFR.step (m : MFR α) : MOp → Option (List α) × MFR α
   | .read n => (some (m.read (some n)).1, (m.read (some n)).2)
   | .readAll => ((m.read none).1, (m.read none).2)
   | .seek0 => (none, m.seek0)
+
+def MOp.isRead : MOp → Bool
+  | .seek0 => false
+  | _ => true
 
 def MFR.run (m : MFR α) : List MOp → List (Option (List α)) × MFR α
   | [] => ([], m)
